@@ -2799,7 +2799,7 @@ class StateEngine(object):
             retry_timeout = context["State"].get("RetryTimeout", 0)
             self.event_dispatcher.set_timeout(asl_state_Parallel_delegate, retry_timeout)
 
-        def get_start_index(context):
+        def get_start_index(context, entering_map=False):
             """
             Boilerplate to retrieve the start index of the Map ItemProcessor or
             Iterator. This is used in the implementation of MaxConcurrency. The
@@ -2809,12 +2809,21 @@ class StateEngine(object):
             "Range" field, if present, holds the index of the start of the next
             block to be processed. The "Branch" metadata is a list so we can
             handle the case of nested Map and Parallel states.
+
+            When the event is that of the Map state itself (entering_map) the
+            top of the "Branch" list is either the re-entry marker written by
+            asl_state_collect_results, which has no "Index", or, for a Map
+            nested in a branch or iteration, the entry of the *enclosing*
+            state whose "Range" is that of the enclosing Map's batch and must
+            not be taken for this Map's start index.
             """
             start = 0
             context_state = context["State"]
             if "Branch" in context_state and len(context_state["Branch"]):
-                iterator_range = context_state["Branch"][-1].get("Range", "0:0")
-                start = int(iterator_range.split(":")[0])
+                top = context_state["Branch"][-1]
+                if not (entering_map and "Index" in top):
+                    iterator_range = top.get("Range", "0:0")
+                    start = int(iterator_range.split(":")[0])
 
             return start
 
@@ -2926,7 +2935,7 @@ class StateEngine(object):
                 if length and not "Branch" in context_state:
                     context_state["Branch"] = []
 
-                start = get_start_index(context)
+                start = get_start_index(context, entering_map=True)
                 if length:
                     if start == 0:
                         if len(context_state["Branch"]) > 0:
@@ -3101,7 +3110,7 @@ class StateEngine(object):
             the "start" index to ensure we only set the RetryTimeout for
             the first "batch".
             """
-            if get_start_index(context) == 0:
+            if get_start_index(context, entering_map=True) == 0:
                 retry_timeout = context["State"].get("RetryTimeout", 0)
             else:
                 retry_timeout = 0
@@ -3488,7 +3497,8 @@ class StateEngine(object):
         set we will re-enter the Map state, possibly several times, to process
         the next batch of items so again we want to suppress the history update.
         """
-        reentered_map = state_type == "Map" and get_start_index(context) != 0
+        reentered_map = (state_type == "Map" and
+                         get_start_index(context, entering_map=True) != 0)
         if not context["State"].get("RetryCount") and not reentered_map:
             self.update_execution_history(
                 state_machine,
